@@ -1,4 +1,5 @@
 SPECIFICATION Spec
-CONSTANT Mutant = "leeway_sign"
+CONSTANTS Mutant = "leeway_sign"
+  Full = FALSE
 INVARIANTS InvTypes InvSignature InvUnsigned InvAlgKey InvAlgAllowed InvIssuer InvAudience InvScopes InvValidity InvKidUnique InvMerge InvRefines InvVerdict
 CHECK_DEADLOCK FALSE
